@@ -3,6 +3,7 @@ package props
 import (
 	"bytes"
 	"fmt"
+	"io"
 	"math/rand"
 	"reflect"
 	"sort"
@@ -53,6 +54,55 @@ var c03Paths = []c03Path{
 		err := e.WriteRows(&buf, rows)
 		return buf.Bytes(), err
 	}},
+	// the any-typed generic APIs: rows travel as []any (values and pointers alternating) through the
+	// per-node value writers of column_buffer_reflect.go (writeValueFuncOf), a third implementation
+	{"generic-writer-any", func(e *gen.Entry, rows any, b []int, r *rand.Rand) ([]byte, error) {
+		var buf bytes.Buffer
+		err := c03WriteAny(&buf, e, rows, false)
+		return buf.Bytes(), err
+	}},
+	{"generic-buffer-any", func(e *gen.Entry, rows any, b []int, r *rand.Rand) ([]byte, error) {
+		var buf bytes.Buffer
+		err := c03WriteAny(&buf, e, rows, true)
+		return buf.Bytes(), err
+	}},
+}
+
+func c03WriteAny(w io.Writer, e *gen.Entry, rows any, viaBuffer bool) (err error) {
+	defer func() {
+		if r := recover(); r != nil {
+			err = fmt.Errorf("PANIC: %v", r)
+		}
+	}()
+	rv := reflect.ValueOf(rows)
+	anys := make([]any, rv.Len())
+	for i := range anys {
+		if i%2 == 0 {
+			anys[i] = rv.Index(i).Interface()
+		} else {
+			anys[i] = rv.Index(i).Addr().Interface()
+		}
+	}
+	if viaBuffer {
+		buf := parquet.NewGenericBuffer[any](e.Schema)
+		if len(anys) > 0 {
+			if _, err := buf.Write(anys); err != nil {
+				return err
+			}
+		}
+		pw := parquet.NewWriter(w, e.Schema)
+		if _, err := pw.WriteRowGroup(buf); err != nil {
+			return err
+		}
+		return pw.Close()
+	}
+	gw := parquet.NewGenericWriter[any](w, e.Schema)
+	if len(anys) > 0 {
+		if _, err := gw.Write(anys); err != nil {
+			return err
+		}
+	}
+	return gw.Close()
 }
 
 // describe a leaf column for failure keys: repetition pattern of its ancestors + physical type
@@ -199,7 +249,13 @@ func firstDiff(a, b [][]gen.Triple) (col int, idx int, desc string) {
 
 // c03Types: the shared catalogue plus the round-3 extension types.
 func c03Types() []*gen.Entry {
-	return append(append([]*gen.Entry(nil), gen.Catalog...), gen.ExtCatalog...)
+	out := append([]*gen.Entry(nil), gen.Catalog...)
+	for _, e := range gen.ExtCatalog {
+		if gen.ByName(e.Name) == nil {
+			out = append(out, e)
+		}
+	}
+	return out
 }
 
 // splitRows cuts a column stream into rows (a row starts at repetition level 0).
@@ -253,7 +309,7 @@ func unorderedDiff(a, b [][]gen.Triple) (col int, row int, desc string) {
 }
 
 func RunC03(ctx *core.Ctx) {
-	ctx.SetRule("catalogue of generated Go struct types (required/optional-tag/pointer/slice/list/nested list/struct/pointer-to-struct/slice-of-struct leaves of all physical kinds) x random rows with null-run patterns around multiples of 8 and 64 x write batchings x 6 ingestion paths; expected streams from the harness reference shredder, which is compared row by row with the Lean `shred` (theorem assemble_shred); non-trivial = at least one optional or repeated leaf column holding both null and non-null entries; " + c03nsRule)
+	ctx.SetRule("catalogue of generated Go struct types (required/optional-tag/pointer/slice/list/nested list/struct/pointer-to-struct/slice-of-struct leaves of all physical kinds) x random rows with null-run patterns around multiples of 8 and 64 x write batchings x 8 ingestion paths (GenericWriter[T], Writer.Write(any), GenericBuffer[T], Buffer.Write(any), RowBuffer[T], WriteRows(Deconstruct), GenericWriter[any], GenericBuffer[any]); expected streams from the harness reference shredder, which is compared row by row with the Lean `shred` (theorem assemble_shred); non-trivial = at least one optional or repeated leaf column holding both null and non-null entries; " + c03nsRule)
 	ncases := ctx.Scale(6, 60) // per catalogue entry
 	var wg sync.WaitGroup
 	sem := make(chan struct{}, 16)
